@@ -50,6 +50,11 @@ CLAIMED = {
              "Tie = fault enumeration on real Apps: 16 message-kind x receiver-condition cases x both directions x 1-2 clients, panic/no-panic compared with the model under every flush order, then a fresh operation must still replicate.",
         note="Trusted: Lean kernel + standard axioms; translator's guard scan (regex: get_entity dominance, unwrap count in bin_to_reflect); panics originating inside dependencies on inputs the model treats as opaque are outside the model (only the crate's own call sites).",
         technique="Lean 4 proof (totality of Except-valued handlers for all step sequences) + fault enumeration on the real crate", ref="§7 C08"),
+    "C16": dict(
+        text="Machine-checked proof that the two translation functions (local joints -> uuids on the sender, uuids -> local replicas on the receiver, unknown ids skipped as in the code) compose to the identity on structure: same number of joints, same order, repetitions kept, each joint the receiver's replica of the same uuid, bind poses copied — for every joint list and arbitrary id spaces, also through the host relay; "
+             "the necessity of 'receiver knows the joint' is shown by a witness (a joint unknown at apply time is dropped: the split-snapshot case). Tied to the code by translator facts on both loops, the mapper's fields and the token name (D5), by running the model's functions on the real uuid maps of every traced SkinnedMesh update (live, relayed and snapshot to a late joiner), and by the oracle (joints as uuids and bind-pose bits equal on every peer, traffic stops).",
+        note="Trusted: Lean kernel + standard axioms; that every joint is known on the receiver when the update is applied (FIFO + entity replication) is checked per trace, not proved; snapshots larger than one renet tick (joint spawn and mapper split across frames) are exercised only in the thorough tier.",
+        technique="Lean 4 proof (filterMap/map list theorem, relay composition) + model-vs-trace correspondence + oracle", ref="§7 C16"),
 }
 PENDING_REASON = "not claimed yet: machinery for this property is still being built (see DESIGN.md §10 build order); no check is registered until its theorems and tie run"
 
